@@ -209,3 +209,7 @@ def run(check):
         from ..rules_alias import Alias
         rule_partial_map_lookup(c, 'C15.R7', Alias(c))
     check.run_rule('C15.R7', r7)
+    # "a '+depths' map": the helpers every result's provenance map goes through always give the map its own '+depths' entry,
+    # whatever the input map has (the rest of their contracts is C08's business)
+    from ..rules_protocol import rule_source_helpers
+    check.run_rule('C15.R9', lambda c: rule_source_helpers(c, {'depths': 'C15.R9', 'arith': None, 'dedup': None, 'complete': None}))
